@@ -1,6 +1,6 @@
 #!/bin/bash
 # runs every quick check once, prints one line per check
-cd /verif
+cd "$(dirname "$0")/.."
 for n in $(seq -w 1 20); do
   t0=$(date +%s)
   out=$(./check C$n --tier ${1:-quick} 2>&1); rc=$?
